@@ -131,3 +131,40 @@ impl TECurveConfig for Decaf377EdwardsConfig {
 pub broadcast axiom fn ad_consts()
     ensures #[trigger] <Decaf377EdwardsConfig as TECurveConfig>::COEFF_A.val() == A_(),
             #[trigger] <Decaf377EdwardsConfig as TECurveConfig>::COEFF_D.val() == D_();
+
+// ---- validity (C06): on the curve and in the even subgroup 2E (the points that represent decaf377 elements)
+pub uninterp spec fn is_even(p: P4) -> bool;
+pub open spec fn valid(p: P4) -> bool { p4_wf(p) && on_curve(p) && is_even(p) }
+// M-GROUP facts about 2E (statements about the spec functions only)
+pub broadcast axiom fn m_group_valid_id() ensures #[trigger] valid(id4());
+pub broadcast axiom fn m_group_valid_add(p: P4, q: P4) requires valid(p), valid(q) ensures valid(#[trigger] te_add(p, q));
+pub broadcast axiom fn m_group_valid_neg(p: P4) requires valid(p) ensures valid(#[trigger] te_neg(p));
+pub broadcast axiom fn m_group_valid_affine(p: P4) requires valid(p) ensures valid(#[trigger] to_affine(p));
+pub broadcast axiom fn m_group_double_any(p: P4) requires p4_wf(p), on_curve(p) ensures valid(#[trigger] te_add(p, p));
+pub broadcast axiom fn m_group_valid_mul(k: int, p: P4) requires valid(p), k >= 0 ensures valid(#[trigger] ark_mul(k, p));
+pub broadcast axiom fn m_decaf_decode_valid(s: int)
+    requires in_fq(s)
+    ensures match #[trigger] spec_decode(s) { Some(p) => valid(p), None => true };
+pub broadcast group validity_axioms { m_group_valid_id, m_group_valid_add, m_group_valid_neg, m_group_valid_affine,
+    m_group_double_any, m_group_valid_mul, m_decaf_decode_valid }
+
+// generic helpers used by ark traits
+pub uninterp spec fn asref_seq<S>(s: S) -> Seq<u64>;
+impl EdwardsProjective {
+    #[verifier::external_body]
+    pub fn mul_bigint<S: AsRef<[u64]>>(&self, other: S) -> (r: EdwardsProjective)
+        ensures repr(r) == ark_mul(limbs_val(asref_seq(other)), repr(*self))
+    { unimplemented!() }
+}
+impl EdwardsAffine {
+    #[verifier::external_body]
+    pub fn mul_bigint<S: AsRef<[u64]>>(&self, other: S) -> (r: EdwardsProjective)
+        ensures repr(r) == ark_mul(limbs_val(asref_seq(other)), arepr(*self))
+    { unimplemented!() }
+    // AffineRepr::from_random_bytes (affine.rs:181): some point of the curve E, *not* necessarily in 2E
+    #[verifier::external_body]
+    pub fn from_random_bytes(bytes: &[u8]) -> (r: Option<EdwardsAffine>)
+        ensures match r { Some(p) => on_curve(arepr(p)), None => true }
+    { unimplemented!() }
+}
+// ark_std::{Zero, One}, Group/CurveGroup/AffineRepr method sets are checked as inherent impls (R7b)
